@@ -37,8 +37,8 @@ theorem cb_eqPER : EqPER cbCalc where
 theorem hot_eqPER : EqPER hotCalc where
   symm a b h := by
     simp only [hotCalc, HotRule.eq, Bool.and_eq_true, beq_iff_eq, Bool.or_eq_true, bne_iff_ne, ne_eq] at h ⊢
-    obtain ⟨⟨⟨⟨⟨⟨⟨⟨⟨h1, h2⟩, h3⟩, h4⟩, h5⟩, h6⟩, h7⟩, h8⟩, h9⟩, h10⟩ := h
-    refine ⟨⟨⟨⟨⟨⟨⟨⟨⟨h1.symm, h2.symm⟩, h3.symm⟩, h4.symm⟩, h5.symm⟩, h6.symm⟩, h7.symm⟩, h8.symm⟩, ?_⟩, ?_⟩
+    obtain ⟨⟨⟨⟨⟨⟨⟨⟨⟨⟨h1, h2⟩, h3⟩, h4⟩, h5⟩, h5'⟩, h6⟩, h7⟩, h8⟩, h9⟩, h10⟩ := h
+    refine ⟨⟨⟨⟨⟨⟨⟨⟨⟨⟨h1.symm, h2.symm⟩, h3.symm⟩, h4.symm⟩, h5.symm⟩, h5'.symm⟩, h6.symm⟩, h7.symm⟩, h8.symm⟩, ?_⟩, ?_⟩
     · rcases h9 with h9 | h9
       · left; rw [← h8]; exact h9
       · right; exact ⟨h9.1.symm, h9.2.symm⟩
@@ -46,10 +46,10 @@ theorem hot_eqPER : EqPER hotCalc where
       split_ifs at h10 ⊢ <;> simp_all
   trans a b c h g := by
     simp only [hotCalc, HotRule.eq, Bool.and_eq_true, beq_iff_eq, Bool.or_eq_true, bne_iff_ne, ne_eq] at h g ⊢
-    obtain ⟨⟨⟨⟨⟨⟨⟨⟨⟨h1, h2⟩, h3⟩, h4⟩, h5⟩, h6⟩, h7⟩, h8⟩, h9⟩, h10⟩ := h
-    obtain ⟨⟨⟨⟨⟨⟨⟨⟨⟨g1, g2⟩, g3⟩, g4⟩, g5⟩, g6⟩, g7⟩, g8⟩, g9⟩, g10⟩ := g
-    refine ⟨⟨⟨⟨⟨⟨⟨⟨⟨h1.trans g1, h2.trans g2⟩, h3.trans g3⟩, h4.trans g4⟩, h5.trans g5⟩, h6.trans g6⟩, h7.trans g7⟩,
-      h8.trans g8⟩, ?_⟩, ?_⟩
+    obtain ⟨⟨⟨⟨⟨⟨⟨⟨⟨⟨h1, h2⟩, h3⟩, h4⟩, h5⟩, h5'⟩, h6⟩, h7⟩, h8⟩, h9⟩, h10⟩ := h
+    obtain ⟨⟨⟨⟨⟨⟨⟨⟨⟨⟨g1, g2⟩, g3⟩, g4⟩, g5⟩, g5'⟩, g6⟩, g7⟩, g8⟩, g9⟩, g10⟩ := g
+    refine ⟨⟨⟨⟨⟨⟨⟨⟨⟨⟨h1.trans g1, h2.trans g2⟩, h3.trans g3⟩, h4.trans g4⟩, h5.trans g5⟩, h5'.trans g5'⟩, h6.trans g6⟩,
+      h7.trans g7⟩, h8.trans g8⟩, ?_⟩, ?_⟩
     · rcases h9 with h9 | h9
       · left; exact h9
       · rcases g9 with g9 | g9
@@ -362,8 +362,8 @@ theorem steal_witness_flow :
 /-- and in the hotspot manager, where *all* mutable state (per-value token and time counters) is the statistic: `A′`
     (another threshold) listed first takes the counters of `A`, which starts from an empty cache -/
 theorem steal_witness_hot :
-    let a : HotRule := ⟨1, 7, 1, 0, 0, 2, 0, 0, 1, 0, 2, 99, 5⟩
-    let a' : HotRule := ⟨2, 7, 1, 0, 0, 50, 0, 0, 1, 0, 2, 99, 5⟩
+    let a : HotRule := ⟨1, 7, 1, 0, 0, 0, 2, 0, 0, 1, 0, 2, 99, 5⟩
+    let a' : HotRule := ⟨2, 7, 1, 0, 0, 0, 50, 0, 0, 1, 0, 2, 99, 5⟩
     let old : List (Ctl HotRule HotSt) := [⟨0, a, { times := [(4, 1000)], tokens := [(4, 0)] }⟩]
     (build hotCalc 6 [a', a] old 1).map (fun c => (c.id, c.rule.id, c.st.tokens)) = [(1, 2, [(4, 0)]), (2, 1, [])]
     ∧ (build hotCalc 6 [a, a'] old 1).map (fun c => (c.id, c.rule.id, c.st.tokens)) = [(0, 1, [(4, 0)]), (1, 2, [])] := by
